@@ -186,6 +186,40 @@ def run_registry(acc, srv, key, n_ops):
     return rw
 
 
+def run_star(acc, srv, key):
+    """one native denom shared by (almost) every pair of a large registry, then re-registered: every record must still
+    equal what its pair reports about itself"""
+    rng = sub_rng(*key)
+    rw = RegWorld(srv, rng, n_tokens=7, n_families=4, all_extras=True)
+    regd = sorted(rw.reg)
+    hot = ("n", rng.choice(regd))
+    others = [a for a in rw.assets() if a != hot and rw.valid(a)]
+    rng.shuffle(others)
+    for o in others[:38]:
+        a0, a1 = (hot, o) if rng.random() < 0.5 else (o, hot)
+        resp, rec = rw.create(a0, a1, None, ["owner"], (0, 0))
+        if resp["r"] == "ok":
+            rw.model[frozenset([a0, a1])] = rec
+            rw.order.append(frozenset([a0, a1]))
+    for newdec in (rng.choice([0, 8, 18]), rng.choice([6, 9, 12])):
+        rr = rw.x("owner", rw.factory, {"add_native_token_decimals": {"denom": hot[1], "decimals": newdec}})
+        acc.ev()
+        acc.cls("star_reregister", rr["r"], "n%d" % (len(rw.model) // 10 * 10))
+        if rr["r"] != "ok":
+            continue
+        rw.reg[hot[1]] = newdec
+        acc.count("star_reregistrations")
+        probs = []
+        for k2 in rw.order:
+            rec = rw.model[k2]
+            rec["decimals"] = [rw.decimals_of(a) for a in rec["assets"]]
+            probs += check_record(rw, acc, k2, rec, {})
+        if probs:
+            acc.violation("after re-registering %s (shared by %d pairs) with %d decimals: %s" % (hot[1], len(rw.model), newdec, "; ".join(probs[:3])),
+                          {"kind": "registry", "world_key": list(key), "denom": hot[1], "pairs": len(rw.model)})
+    acc.count("star_registries_over_30" if len(rw.model) > 30 else "star_registries_small")
+
+
 def run_shard(acc, prop, tier, seed, shard, nshards, **kw):
     srv = Server()
     try:
@@ -195,6 +229,9 @@ def run_shard(acc, prop, tier, seed, shard, nshards, **kw):
             if _core.skip_world(wi):
                 continue
             rng = sub_rng("n", seed, PROP, tier, shard, wi)
+            if wi == 1 or (tier == "thorough" and wi % 25 == 1):
+                run_star(acc, srv, (seed, PROP, tier, shard, wi, "star"))
+                continue
             rw = run_registry(acc, srv, (seed, PROP, tier, shard, wi), rng.choice([25, 40, 60, 90]))
         # canary: a record whose lookup is pointed at another pair must be flagged
         if len(rw.order) >= 2:
@@ -216,6 +253,7 @@ def floors(acc, tier):
     _w.need(acc, msgs, "creations_ok", 1200)
     _w.need(acc, msgs, "creations_rejected", 800)
     _w.need(acc, msgs, "absent_lookups", 1000)
+    _w.need(acc, msgs, "star_registries_over_30", 8)
     for shape in ("family_split", "repeat", "identical", "bogus_token", "typed_identity", "case_variant", "random"):
         if not any(k.startswith(shape + "|") for k in acc.classes):
             msgs.append("shape %s never generated" % shape)
